@@ -1036,6 +1036,12 @@ namespace glm {
 	}
 
 
+	// xyzz (the vec3 overload is defined in detail/func_common.inl)
+	template<typename T, qualifier Q>
+	GLM_FUNC_QUALIFIER glm::vec<4, T, Q> xyzz(const glm::vec<4, T, Q> &v) {
+		return glm::vec<4, T, Q>(v.x, v.y, v.z, v.z);
+	}
+
 	// xyzw
 	template<typename T, qualifier Q>
 	GLM_FUNC_QUALIFIER glm::vec<4, T, Q> xyzw(const glm::vec<4, T, Q> &v) {
